@@ -365,19 +365,18 @@ def klCheck (c : Code) : Bool :=
     let p := MP.ofSparse e
     gs.any (fun g => MP.acomm c.n g p) || sp.any (fun s => s.1 == p.x && s.2 == p.z)
 
+def orthoGo (h : Nat) : List St → Bool
+  | [] => true
+  | s :: rest =>
+      s.h == h && (let v := T.inner s.t s.t; v.re == 2 ^ h && v.im == 0)
+        && rest.all (fun s' => let v := T.inner s.t s'.t; v.re == 0 && v.im == 0)
+        && orthoGo h rest
+
 /-- `⟨c_a|c_b⟩ = δ_ab`:  scaled vectors have `⟨v_a|v_b⟩ = 2^h δ_ab`. -/
 def orthoCheck (c : Code) : Bool :=
   match allSome (codewords c) with
   | none => false
-  | some cw =>
-      let h := hOf cw
-      let rec go : List St → Bool
-        | [] => true
-        | s :: rest =>
-            s.h == h && (let v := T.inner s.t s.t; v.re == 2 ^ h && v.im == 0)
-              && rest.all (fun s' => let v := T.inner s.t s'.t; v.re == 0 && v.im == 0)
-              && go rest
-      go cw
+  | some cw => orthoGo (hOf cw) cw
 
 def symsOk (n : Nat) (l : List Nat) : Bool := l.length == n && l.all (· < 4)
 
